@@ -4216,6 +4216,15 @@ pub(crate) fn write_op_to_proto(
     }
 }
 
+/// Verification hook (compiled only with `--cfg d_engine_verif`; add-only, no behaviour change):
+/// exposes the crate-private `write_op_to_proto` to an out-of-tree harness.
+#[cfg(d_engine_verif)]
+pub fn verif_write_op_to_proto(
+    op: crate::client::WriteOperation
+) -> d_engine_proto::client::WriteCommand {
+    write_op_to_proto(op)
+}
+
 // ---------------------------------------------------------------------------------------------
 // Verification hooks (compiled only with `--cfg d_engine_verif`; add-only, no behaviour change).
 // They expose the leader's private client-bookkeeping queues read-only and forward to private
